@@ -162,6 +162,15 @@ var tcpClients = []rtMaker{
 		t.Proxy = nil
 		return t, t.CloseIdleConnections
 	}, req.VerifC04IsNoBody},
+	// the same client with request and response dump switched on (the dumping readLine variant,
+	// dump wrappers around the body): must not change anything the caller sees
+	{"fork+dump", func() (http.RoundTripper, func()) {
+		t := req.T().DisableAutoDecode()
+		t.DisableCompression = true
+		t.Proxy = nil
+		t.EnableDump(&req.DumpOptions{Output: io.Discard, RequestHeader: true, RequestBody: true, ResponseHeader: true, ResponseBody: true})
+		return t, func() { t.CloseIdleConnections(); t.DisableDump() }
+	}, req.VerifC04IsNoBody},
 }
 
 type tcpObs struct {
@@ -273,7 +282,7 @@ func tcpInput(stream []byte, method, shape string) streamInput {
 }
 
 // checkTCP: one stream x method over sockets, both clients, oracle + Coq case.
-func checkTCP(r *hk.Run, stream []byte, method, shape string) {
+func checkTCP(r *hk.Run, stream []byte, method, shape string, dumpToo bool) {
 	accepted, selfDel, complete, code, leftover := refFinal(stream, method)
 	if accepted && code == 101 {
 		r.Count("tcp.skipped-101")
@@ -298,16 +307,24 @@ func checkTCP(r *hk.Run, stream []byte, method, shape string) {
 		r.Count("tcp.skipped-reference-second-request-failed")
 		return
 	}
-	if fork.key() != ref.key() {
-		field := diffFields(ref.O, fork.O)
-		if fork.Hung {
-			field = "hang"
-		} else if fork.O.propKey() == ref.O.propKey() {
-			field = "next-request(" + fork.Second + "/" + ref.Second + ")"
+	report := func(name string, got tcpObs) {
+		if got.key() == ref.key() {
+			return
 		}
-		r.Fail(hk.Failure{Sig: "h1tcp:" + field + ":" + shape,
-			What:  "over a raw TCP peer the fork's client differs from net/http's client",
-			Input: tcpInput(stream, method, shape), Got: fork, Want: ref})
+		field := diffFields(ref.O, got.O)
+		if got.Hung {
+			field = "hang"
+		} else if got.O.propKey() == ref.O.propKey() {
+			field = "next-request(" + got.Second + "/" + ref.Second + ")"
+		}
+		r.Fail(hk.Failure{Sig: "h1tcp:" + field + ":" + name + ":" + shape,
+			What:  "over a raw TCP peer the fork's client (" + name + ") differs from net/http's client",
+			Input: tcpInput(stream, method, shape), Got: got, Want: ref})
+	}
+	report("dump-off", fork)
+	if dumpToo {
+		r.Count("tcp.dump-on")
+		report("dump-on", tcpObserve(tcpClients[2], stream, method, hold, exact))
 	}
 	if fork.Hung || fork.O.Panic != "" {
 		return
@@ -375,7 +392,7 @@ func runTCP(r *hk.Run, rng *hk.Rand) {
 	log.SetOutput(io.Discard) // net/http logs "Unsolicited response received on idle HTTP channel" for bytes behind a message
 	for _, s := range tcpFixed() {
 		for _, m := range []string{"GET", "HEAD", "CONNECT"} {
-			checkTCP(r, []byte(s.data), m, s.shape)
+			checkTCP(r, []byte(s.data), m, s.shape, m == "GET")
 		}
 	}
 	n := r.Scale(220, 4000)
@@ -400,7 +417,7 @@ func runTCP(r *hk.Run, rng *hk.Rand) {
 		case k < 35:
 			method = "CONNECT"
 		}
-		checkTCP(r, s, method, "tcp:"+shape)
+		checkTCP(r, s, method, "tcp:"+shape, rng.Chance(40))
 	}
 }
 
